@@ -38,6 +38,16 @@ func c08Oracle(ec *epCase) *Failure {
 		name string
 		v, s Out
 	}
+	sens := 0 // order sensitivity by the reference model under every member order, computed on demand
+	sensitive := func() bool {
+		if sens == 0 {
+			sens = 1
+			if c06OrderSensitive(ec) {
+				sens = 2
+			}
+		}
+		return sens == 2
+	}
 	pairs := []pair{{"query", ec.verbose.q, ec.silent.q}, {"first", ec.verbose.f, ec.silent.f}, {"exists", ec.verbose.e, ec.silent.e},
 		{"match", ec.verbose.m, ec.silent.m}, {"existsormatch", ec.verbose.x, ec.silent.x}}
 	for _, p := range pairs {
@@ -52,6 +62,9 @@ func c08Oracle(ec *epCase) *Failure {
 		case "ok":
 			if unordered && p.name != "query" && ec.verbose.q.Class != "ok" {
 				continue // early exit before a failure whose position depends on member order
+			}
+			if unordered && sensitive() {
+				continue // a failure absorbed into a value: two runs may meet the members in different orders
 			}
 			if !sameOut(p.v, p.s, unordered, p.name) {
 				return &Failure{Sig: "C08/silent-differs-from-successful-run/" + tag, Expected: p.v.String(), Observed: p.s.String()}
@@ -137,7 +150,7 @@ func predicateThenError() []*Expr {
 }
 
 func runC08(r *Run) {
-	r.Rule("the C06 program/document space (full language <= 3 nodes, nested constructs, error-family chains and operators) plus every predicate kind (31 conditions incl. nested filters, soft and hard failures) followed by an erroring step; all five entry points run with and without WithSilent on identical inputs; oracle: silent never returns ErrVerbose; a successful verbose run is returned unchanged; a suppressible verbose error becomes no error (Query/First: the reference's items before the failure) or NULL unless already established (Exists/Match); non-suppressible errors (unknown variable, tz-requiring cast, datetime template, invalid decimal precision/scale) keep their class; verbose and silent Query both compared with the reference model; non-trivial = Query yields items or an error")
+	r.Rule("the C06 program/document space (full language <= 3 nodes quick, <= 4 thorough; nested constructs, error-family chains and operators) plus every predicate kind (31 conditions incl. nested filters, soft and hard failures) followed by an erroring step; all five entry points run with and without WithSilent on identical inputs; oracle: silent never returns ErrVerbose; a successful verbose run is returned unchanged; a suppressible verbose error becomes no error (Query/First: the reference's items before the failure) or NULL unless already established (Exists/Match); non-suppressible errors (unknown variable, tz-requiring cast, datetime template, invalid decimal precision/scale) keep their class; verbose and silent Query both compared with the reference model; non-trivial = Query yields items or an error")
 	paths := epPaths(r)
 	paths = append(paths, bothModes(predicateThenError())...)
 	docs := epDocs()
